@@ -253,10 +253,23 @@ theorem forgotten_harmless (s : Sess) (u : Nat) (h : lookup s.docs u = none) (ch
     (sstep s (.msg (.request id (.file u) line col))).2 = .response id false := by
   simp [sstep, step, h]
 
-/-- a document that is open when an unappliable edit forgets it stays recorded as open: later file
-events about it are still the editor's business, not the server's -/
-theorem forgotten_stays_open (s : Sess) (u : Nat) (changes : List Change) :
-    (sstep s (.msg (.didChange (.file u) changes))).1.opened = s.opened := rfl
+/-- a document forgotten after an edit that cannot be applied is no longer recorded as open either: file events
+about it are the server's business again (`changed_reread` applies) -/
+theorem forgotten_not_open (s : Sess) (u : Nat) (changes : List Change) (t : List Char)
+    (h0 : lookup s.docs u = some t) (hf : applyChanges t changes = some none) :
+    u ∉ (sstep s (.msg (.didChange (.file u) changes))).1.opened ∧
+    lookup (sstep s (.msg (.didChange (.file u) changes))).1.docs u = none := by
+  simp only [sstep, step, h0, hf]
+  refine ⟨by simp, lookup_remove _ u⟩
+
+/-- an edit that is applied, and an edit to a document the server does not hold, leave the set of open documents alone -/
+theorem applied_keeps_open (s : Sess) (u : Nat) (changes : List Change)
+    (h : ∀ t, lookup s.docs u = some t → applyChanges t changes ≠ some none) :
+    (sstep s (.msg (.didChange (.file u) changes))).1.opened = s.opened := by
+  simp only [sstep]
+  cases hl : lookup s.docs u with
+  | none => rfl
+  | some t => simp only [if_neg (h t hl)]
 
 /-- re-reading a changed file replaces the stored text by the (normalised) text on disk -/
 theorem changed_reread (s : Sess) (u : Nat) (text : List Char) (hno : u ∉ s.opened) :
